@@ -12,7 +12,7 @@ META = {
 }
 
 LOCAL_SEQ = ['Sc,L', 'Sv,L,Sv', 'Ss,L,C', 'Sf,L,Sd,L', 'Sp,L,M,L', 'Sc,C,Sv,L,L', 'Sv,M', 'Sd,L,Sp,C']
-GLOBAL_SEQ = ['A,L,A', 'Sg,L,C', 'A,C,U,L', 'U,L,Sg,M,L', 'A,L,L']
+GLOBAL_SEQ = ['A,L,A', 'Sg,L,C', 'A,C,U,L', 'U,L,Sg,M,L', 'A,L,L', 'Ud,L,A,L', 'A,L,Ud,L,L']
 
 
 def configs(tier):
@@ -27,7 +27,7 @@ def configs(tier):
         add(spec('localp', 'localp', 1, 2, 2, order=1), 'Sv', -1, max_paths=48); add(spec('localp', 'localp-zero', 1, 3, 1, order=2), 'Sv', -1, max_paths=32)   # several outputs, all active: the per-output max of the classic criterion
         add(spec('wavelet', 'wavelet', 1, 1, 1, order=1), 'Sc,L,C'); add(spec('wavelet', 'wavelet', 2, 1, 1, order=1), 'Sf,L')
         add(spec('sequence', 'rleja', 2, 1, 2), 'Sg,L,A,L', 0); add(spec('sequence', 'leja', 2, 2, 1), 'A,C,U,L', 0); add(spec('global', 'clenshaw-curtis', 2, 1, 1), 'A,L,U,M,L', 0)
-        add(spec('global', 'leja', 2, 1, 2), 'Sg,L,C', 0); add(spec('fourier', 'fourier', 2, 1, 1), 'A,L,U', 0)
+        add(spec('global', 'leja', 2, 1, 2), 'Sg,L,C', 0); add(spec('global', 'clenshaw-curtis', 2, 1, 1), 'Ud,L', 0); add(spec('sequence', 'rleja', 2, 1, 1), 'Ud,L,A,L', 0); add(spec('fourier', 'fourier', 2, 1, 1), 'Ud,L', 0); add(spec('fourier', 'fourier', 2, 1, 1), 'A,L,U', 0)
     else:
         for rule in LOCAL_RULES:
             for order in (0, 1, 2, 3):
@@ -45,8 +45,8 @@ def configs(tier):
         for rule in ('leja', 'rleja', 'min-lebesgue'):
             for ops in GLOBAL_SEQ: add(spec('global', rule, 2, 1, 2), ops, 0, max_paths=25)
         for rule in ('clenshaw-curtis', 'fejer2', 'rleja-odd', 'gauss-patterson'):
-            for ops in ('A,L,A', 'A,C,U,L', 'A,L,U,M,L'): add(spec('global', rule, 2, 1, 1), ops, 0, max_paths=25)
-        for ops in ('A,L,A', 'A,C,U,L', 'U,L,M,L'): add(spec('fourier', 'fourier', 2, 1, 1), ops, 0, max_paths=15, timeout=300)
+            for ops in ('A,L,A', 'A,C,U,L', 'A,L,U,M,L', 'Ud,L,A,L', 'A,L,Ud,L'): add(spec('global', rule, 2, 1, 1), ops, 0, max_paths=25)
+        for ops in ('A,L,A', 'A,C,U,L', 'U,L,M,L', 'Ud,L', 'A,L,Ud,L'): add(spec('fourier', 'fourier', 2, 1, 1), ops, 0, max_paths=15, timeout=300)
     return cs
 
 
